@@ -178,4 +178,142 @@ theorem handleMaxStreamData_outwin (s : Stream) (v : Int) :
   repeat' split
   all_goals simp_all
 
+/-! ### send path: connection credit (`min(avail, …)` then `consume`) -/
+
+/-- The clamp never asks for more than the connection credit allows: if the frame starts at or below
+`outmaxsent` (retransmission or the next new byte), its end stays within `outmaxsent + avail`. -/
+theorem clampSize_within (off size ms av : Int) (hs : 0 ≤ size) (hav : 0 ≤ av) (hoff : off ≤ ms) :
+    0 ≤ clampSize off size ms av ∧ clampSize off size ms av ≤ size ∧ off + clampSize off size ms av ≤ ms + av := by
+  unfold clampSize QuicStream.imax QuicStream.imin
+  repeat' split
+  all_goals omega
+
+/-- Retransmissions (frames ending at or below `outmaxsent`) are not clamped and consume nothing. -/
+theorem retransmission_free (off size ms av oused : Int) (h : off + size ≤ ms) :
+    clampSize off size ms av = size ∧ charge oused ms (off + size) = (oused, ms) := by
+  unfold clampSize charge
+  have : ¬ (off + size > ms) := by omega
+  simp [this]
+
+/-- `consume` is charged exactly the growth of `outmaxsent`; `outmaxsent` becomes the maximum of its old
+value and the frame end; `used ≤ max` is preserved when the frame end respects the clamp. -/
+theorem charge_spec (oused omax ms e : Int) (hinv : oused ≤ omax) (he : e ≤ ms + avail omax oused) :
+    (charge oused ms e).1 ≤ omax ∧ (charge oused ms e).1 - oused = (charge oused ms e).2 - ms ∧
+      (charge oused ms e).2 = (if e > ms then e else ms) ∧ ms ≤ (charge oused ms e).2 := by
+  unfold charge consume avail at *
+  split <;> simp <;> omega
+
+/-- A STREAM frame takes at most the requested size (`appendStreamFrame` may truncate, never extend). -/
+theorem streamFrameFit_le (a id off size : Int) (fin : Bool) (n : Int) (wf : Bool)
+    (h : streamFrameFit a id off size fin = some (n, wf)) (hs : 0 ≤ size) : 0 ≤ n ∧ n ≤ size := by
+  unfold streamFrameFit at h
+  simp only [] at h
+  generalize (if off ≠ 0 then szv off else 0) = o at h
+  by_cases h1 : (a - 1 - szv id - o - szv size < 0 ∨ (a - 1 - szv id - o - szv size = 0 ∧ size > 0))
+  · rw [if_pos h1] at h; exact absurd h (by simp)
+  · rw [if_neg h1] at h
+    by_cases h2 : a - 1 - szv id - o - szv size < size
+    · rw [if_pos h2] at h; simp only [Option.some.injEq, Prod.mk.injEq] at h; omega
+    · rw [if_neg h2] at h; simp only [Option.some.injEq, Prod.mk.injEq] at h; omega
+
+/-- One iteration of the STREAM loop, connection level: with `used ≤ max` and a frame that starts at or
+below `outmaxsent`, the bytes actually placed (`n ≤ clamped size`) keep `used ≤ max`, and the credit
+consumed equals the growth of `outmaxsent` (retransmitted bytes cost nothing). -/
+theorem send_iteration_conn (oused omax ms off size n : Int) (hinv : oused ≤ omax) (hs : 0 ≤ size)
+    (hoff : off ≤ ms) (hn0 : 0 ≤ n) (hn : n ≤ clampSize off size ms (avail omax oused)) :
+    (charge oused ms (off + n)).1 ≤ omax ∧
+      (charge oused ms (off + n)).1 - oused = (charge oused ms (off + n)).2 - ms := by
+  have hav : 0 ≤ avail omax oused := by unfold avail; omega
+  have hc := clampSize_within off size ms (avail omax oused) hs hav hoff
+  have := charge_spec oused omax ms (off + n) hinv (by omega)
+  exact ⟨this.1, this.2.1⟩
+
+/-- The full statement for all histories (every stream, every interleaving of flush / MAX_* / send /
+ack / loss): `used ≤ max`, `used = Σ outmaxsent`, `outmaxsent ≤ outwin`.  It needs the range-set
+invariants "every unsent range starts at or below `outmaxsent` and ends at or below
+`min(outflushed, outwin)`" carried through `rangeset.add/sub`; here it is established per iteration
+(`send_iteration_conn`, `clampSize_within`, `charge_spec`) and checked on the real structs after every
+operation by the harness oracle (`oracleState`). -/
+def SendPathStatement : Prop :=
+  ∀ (fuel : Nat) (c : Conn) (s : Stream) (w : Writer) (pn : Int) (pto : Bool),
+    c.oused ≤ c.omax → s.outmaxsent ≤ s.outwin →
+    (∀ r ∈ s.outunsent, r.s ≤ s.outmaxsent ∧ r.s ≤ r.e ∧ r.e ≤ imin s.outflushed s.outwin) →
+    imin s.out.start s.outwin ≤ s.outmaxsent → s.outflushed ≥ 0 →
+    (∀ r ∈ s.outacked, r.s ≤ r.e ∧ r.e ≤ imin s.outflushed s.outwin) → s.out.start ≤ s.outflushed →
+    let r := outLoop fuel c s w pn pto
+    r.1.oused ≤ r.1.omax ∧ r.2.1.outmaxsent ≤ r.2.1.outwin ∧
+      r.1.oused - c.oused = r.2.1.outmaxsent - s.outmaxsent
+
+/-! ### monitor -/
+open NetVerif.Model.QuicMonitor in
+/-- Every trace the C20 monitor accepts satisfies the wire-level statement: each STREAM frame ends within
+the largest MAX_STREAM_DATA (or initial limit) its sender had received before, the sum over streams of
+the highest offsets sent stays within the largest MAX_DATA received before, and each MAX_DATA /
+MAX_STREAM_DATA an endpoint sends is at least every value it advertised before. -/
+theorem monitor_sound (tr : List Ev) (h : accepts 20 tr = true) :
+    (∀ pre suf s id off len fin, tr = pre ++ .txStream s id off len fin :: suf →
+        off + len ≤ streamLimit pre s id ∧
+        totalSent (pre ++ [.txStream s id off len fin]) s ≤ connLimit pre s) ∧
+    (∀ pre suf s v, tr = pre ++ .txMaxData s v :: suf → v ≥ advConn pre s) ∧
+    (∀ pre suf s id v, tr = pre ++ .txMaxSD s id v :: suf → v ≥ advStream pre s id) := by
+  have hall := (NetVerif.Proofs.Lemmas.QuicMonitor.accepts_iff 20 tr).1 h
+  refine ⟨?_, ?_, ?_⟩
+  · intro pre suf s id off len fin heq
+    have := hall pre _ suf heq
+    simp only [okEv] at this
+    simp at this
+    exact ⟨this.2.1, this.2.2⟩
+  · intro pre suf s v heq
+    have := hall pre _ suf heq
+    simp only [okEv] at this
+    simpa using this
+  · intro pre suf s id v heq
+    have := hall pre _ suf heq
+    simp only [okEv] at this
+    simpa using this
+
+/-- the step function of `advConn` -/
+def advStep (s : Nat) (m : Int) (e : QuicMonitor.Ev) : Int :=
+  match e with
+  | .init s' c _ => if s' = s then QuicMonitor.imax m c else m
+  | .txMaxData s' v => if s' = s then QuicMonitor.imax m v else m
+  | _ => m
+
+theorem advStep_ge (s : Nat) (m : Int) (e : QuicMonitor.Ev) : advStep s m e ≥ m := by
+  unfold advStep
+  cases e <;> simp <;> (try split) <;>
+    first | exact NetVerif.Proofs.Lemmas.QuicMonitor.imax_ge_left _ _ | omega
+
+theorem advConn_eq (pre : List QuicMonitor.Ev) (s : Nat) : QuicMonitor.advConn pre s = pre.foldl (advStep s) 0 := rfl
+
+/-- `advConn` really is an upper bound of everything advertised before (so `v ≥ advConn` means
+"never decreases"): an earlier MAX_DATA of the same endpoint is at most `advConn`. -/
+theorem advConn_ge_earlier (pre : List QuicMonitor.Ev) (s : Nat) (v : Int) (hm : QuicMonitor.Ev.txMaxData s v ∈ pre) :
+    v ≤ QuicMonitor.advConn pre s := by
+  rw [advConn_eq]
+  suffices h : ∀ m0 : Int, v ≤ pre.foldl (advStep s) m0 from h 0
+  induction pre with
+  | nil => cases hm
+  | cons e rest ih =>
+    intro m0
+    simp only [List.foldl_cons]
+    cases hm with
+    | head =>
+      have h1 := NetVerif.Proofs.Lemmas.QuicMonitor.foldl_imax_ge (advStep s) (advStep_ge s) rest
+        (advStep s m0 (.txMaxData s v))
+      have h2 : advStep s m0 (.txMaxData s v) ≥ v := by
+        unfold advStep; simp; exact NetVerif.Proofs.Lemmas.QuicMonitor.imax_ge_right _ _
+      omega
+    | tail _ h => exact ih h _
+
+/-- non-vacuity: a small accepted trace with a window update and a second frame using it. -/
+example : QuicMonitor.accepts 20
+    [.init 0 100 50, .init 1 100 50, .txStream 0 2 0 50 false, .rxMaxSD 0 2 80, .txMaxSD 1 2 80,
+     .txStream 0 2 50 30 true, .txMaxData 1 150] = true := by decide
+/-- … and sending one byte beyond the limit is rejected. -/
+example : QuicMonitor.accepts 20
+    [.init 0 100 50, .init 1 100 50, .txStream 0 2 0 51 false] = false := by decide
+example : QuicMonitor.accepts 20
+    [.init 0 100 50, .init 1 100 50, .txMaxData 1 99] = false := by decide
+
 end NetVerif.Proofs.C20
